@@ -24,6 +24,8 @@ Proved here, for every search `O`, every sequence of `write` / `flush` calls fol
 * `flush_inv_move_offset` – whenever `fill_window` moves the window in such a state, the repaired
   `move_offset` is at least `MOVE_BLOCK_ALIGN` before alignment: it is not negative (the code's `debug_assert`), and
   at least 64 bytes are free afterwards (`fill_window` makes progress);
+* `repair_invisible_without_flush` – in runs WITHOUT `flush` the repaired and the old statement show the search
+  the same views (the compressed bytes do not change);
 * `pinned_move_loses_pending_history` – the statement before the repair violates it on the state of the
   reproducer (`dict_size = 64 KiB`, BT4, `nice_len = 273`, `write(360769); flush(); write(..)`).
 -/
@@ -828,7 +830,49 @@ example : (runEvs noBuf tinyF (policyOracle 0) (St.init noBuf tinyF) [.write (cy
     (runEv noBuf tinyF (policyOracle 0) [.write (cyclicBytes 0 6), .flush, .write (cyclicBytes 6 30), .flush]).low = false := by
   decide +kernel
 
+/-! ### The repair is invisible without `flush` -/
+
+theorem refAdvance_pinned (P : Params) (b : Bool) (inp : List Nat) (e : Nat) : ∀ (k : Nat) (c : RSt),
+    refAdvance { P with pinnedMove := b } inp e k c = refAdvance P inp e k c := by
+  intro k
+  induction k with
+  | zero => intro c; rfl
+  | succ k ih =>
+    intro c
+    show refAdvance { P with pinnedMove := b } inp e k (refMf { P with pinnedMove := b } inp e c) = refAdvance P inp e k (refMf P inp e c)
+    rw [ih]
+    rfl
+
+theorem refSymbol_pinned (P : Params) (b : Bool) (O : Oracle) (inp : List Nat) (c : RSt) :
+    refSymbol { P with pinnedMove := b } O inp c = refSymbol P O inp c := by
+  unfold refSymbol
+  simp only [refAdvance_pinned]
+
+theorem refRun_pinned (P : Params) (b : Bool) (O : Oracle) (inp : List Nat) : ∀ (f : Nat) (c : RSt),
+    refRun { P with pinnedMove := b } O inp f c = refRun P O inp f c := by
+  intro f
+  induction f with
+  | zero => intro c; rfl
+  | succ f ih =>
+    intro c
+    show (if c.encPos < inp.length then refRun { P with pinnedMove := b } O inp f (refSymbol { P with pinnedMove := b } O inp c).1 else c) =
+      (if c.encPos < inp.length then refRun P O inp f (refSymbol P O inp c).1 else c)
+    rw [refSymbol_pinned, ih]
+
+/-- **The repair does not change anything in runs without `flush`.**  For every search and every partition of the input
+    into `write` calls, the window with the repaired `move_window` shows the search exactly the views the window with
+    the statement before the repair shows (positions, look-ahead and look-back BYTES, match length limits): the
+    compressed bytes are the same.  (`pending_size = 0` at every window move of such a run.) -/
+theorem repair_invisible_without_flush (P : Params) (hP : P.WF) (O : Oracle) (parts : List (List Nat)) :
+    traceOf listBuf { P with pinnedMove := true } O parts = traceOf listBuf { P with pinnedMove := false } O parts := by
+  have h1 : ({ P with pinnedMove := true } : Params).WF := ⟨hP.mlm_pos, hP.flush_le, hP.fin_le, hP.ahead_le, hP.ahead_before, hP.kb_pos, hP.cap⟩
+  have h2 : ({ P with pinnedMove := false } : Params).WF := ⟨hP.mlm_pos, hP.flush_le, hP.fin_le, hP.ahead_le, hP.ahead_before, hP.kb_pos, hP.cap⟩
+  rw [trace_eq_ref _ h1, trace_eq_ref _ h2]
+  unfold refTrace
+  rw [refRun_pinned P true, refRun_pinned P false]
+
 #print axioms flush_inv_runEv
+#print axioms repair_invisible_without_flush
 #print axioms flush_runs_keep_history
 #print axioms flush_inv_move_offset
 #print axioms mkParams_flush
